@@ -40,7 +40,7 @@ META = [b" ", b"  ", b"'", b'"', b"$x", b"${HOME}", b"$(id)", b"`id`", b"$V0", b
 CTRL = [bytes([c]) for c in (1, 2, 5, 6, 7, 8, 11, 12, 14, 0x1B, 0x1F, 3, 4, 0x15, 0x7F)]
 UTF = ["é".encode(), "✓".encode(), "😀".encode(), "ä ö".encode()]
 FIXED = [b"", b"-n", b"-e", b"-E x", b"--", b"a\\nb", b"x\\c y", b"a\\0101", b"\\\\", b"a\\", b"'", b'"', b"$(id)",
-         b"${V0}", b"*", b"a b  ", b"  ", b"\n", b"a\nb\n", b"%s%d", b"it's\ntwo 'lines'", b"'\n", b"\n'", b"first\n^second", b"\n^a^b", b"^x^y", b"a\n!b", b"\n#c", b"a\n\\'b", b"\"\n$x'", b"\xc3\xa9\xe2\x9c\x93", b"-", b" ", b"\\"]
+         b"${V0}", b"*", b"a b  ", b"  ", b"\n", b"a\nb\n", b"%s%d", b"it's\ntwo 'lines'", b"'\n", b"\n'", b"first\n^second", b"\n^a^b", b"/tmp/x y", b"/opt/a'b", b"/usr/lib/$x", b"/a/b/c", b"/", b"^x^y", b"a\n!b", b"\n#c", b"a\n\\'b", b"\"\n$x'", b"\xc3\xa9\xe2\x9c\x93", b"-", b" ", b"\\"]
 
 
 def gen_value(rng):
@@ -132,6 +132,8 @@ def gen_seq(rng, depth, budget):
         elif r < 0.27 and depth > 0:
             toks.append("!")
             return toks
+        elif r < 0.30:
+            toks += ["[x", "]"]                 # a subshell block whose shell fails to initialise (handled by the caller)
         else:
             toks.append(gen_op(rng))
     return toks
@@ -183,7 +185,14 @@ def run_impl(line):
 
 def _no_t(c):
     """the Lean side does not see `T` steps (a slow exit changes no value)"""
-    return " ".join(t for t in c.split() if t != "T")
+    toks = [t for t in c.split() if t != "T"]
+    out, i = [], 0
+    while i < len(toks):
+        if toks[i] == "[x" and i + 1 < len(toks) and toks[i + 1] == "]":
+            i += 2                      # a block whose shell failed to initialise: nothing happened
+        else:
+            out.append(toks[i]); i += 1
+    return " ".join(out)
 
 
 def model_request(line, impl):
@@ -203,7 +212,7 @@ def in_domain(line):
         if not _lean:
             from leanproc import Lean
             _lean.append(Lean())
-        return _lean[0].ask("envwf " + " ".join(t for t in _concrete.get(line, line).split() if t != "T"))
+        return _lean[0].ask("envwf " + _no_t(_concrete.get(line, line)))
     except Exception:
         return "?"
 
